@@ -32,6 +32,8 @@ pub enum Pos {
     ArrayElem,
     AsmSize,
     Statement,
+    /// initialiser of a local variable (parsed with an operator table of its own)
+    LocalInit,
 }
 
 #[derive(Debug, Clone, Serialize, Deserialize)]
@@ -415,17 +417,18 @@ pub fn gen_expr(g: &mut G, depth: u32, ex: &Excl, in_tern: bool) -> CE {
 pub fn gen_case(g: &mut G, ex: &Excl) -> Case {
     let depth = 1 + g.below(5) as u32;
     let e = gen_expr(g, depth, ex, false);
-    let pos = match g.below(12) {
+    let pos = match g.below(14) {
         0..=3 => Pos::ConstShort,
         4 => Pos::ConstChar,
         5 => Pos::ArraySize,
         6 => Pos::Aligned,
         7 => Pos::ArrayElem,
         8 => Pos::AsmSize,
+        9 | 10 => Pos::LocalInit,
         _ => Pos::Statement,
     };
     let mut e = e;
-    if pos == Pos::Statement {
+    if pos == Pos::Statement || pos == Pos::LocalInit {
         element_sizeofs(g, &mut e);
     }
     Case { e, pos }
@@ -520,6 +523,7 @@ pub fn source(case: &Case) -> String {
         Pos::ArrayElem => format!("{}const short v[3] = {{7, {}, 9}};\nvoid main() {{ }}\n", pre, t),
         Pos::AsmSize => format!("{}void f() {{ asm(\"nop\", {}); }}\nvoid main() {{ f(); }}\n", pre, t),
         Pos::Statement => format!("{}short v;\nvoid main() {{ v = {}; }}\n", pre, t),
+        Pos::LocalInit => format!("{}short v;\nvoid main() {{ short w = {}; v = w; }}\n", pre, t),
     }
 }
 
@@ -597,7 +601,7 @@ pub fn check(case: &Case, st: &mut Stats, ex: &Excl, known_panics: &[String]) ->
                 Pos::ArraySize => *v <= 0 || *v > 256,
                 Pos::Aligned => *v <= 0,
                 Pos::AsmSize => *v < 0,
-                Pos::Statement => true, // the run-time generator may call a form too complex
+                Pos::Statement | Pos::LocalInit => true, // the run-time generator may call a form too complex
                 _ => false,
             };
             if ok_reject {
@@ -637,7 +641,7 @@ pub fn check(case: &Case, st: &mut Stats, ex: &Excl, known_panics: &[String]) ->
                         cap.funcs.iter().find(|f| f.name == "f").map(|f| f.size_bytes as i64)
                     }
                 }
-                Pos::Statement => {
+                Pos::Statement | Pos::LocalInit => {
                     // run the folded code
                     match exec::link(cap, "4K", 0, exec::Which::InUse) {
                         Ok(img) => {
@@ -649,7 +653,7 @@ pub fn check(case: &Case, st: &mut Stats, ex: &Excl, known_panics: &[String]) ->
                 }
             };
             let expect = match case.pos {
-                Pos::Statement => (*v as i16) as i64, // converted to the 16-bit destination
+                Pos::Statement | Pos::LocalInit => (*v as i16) as i64, // converted to the 16-bit destination
                 _ => *v,
             };
             match observed {
